@@ -931,6 +931,94 @@ def recompaction_scenarios(ctx, prop, n):
     parallel(lambda sd: safe(ctx, recompaction_case, ctx, sd, prop), seeds)
 
 
+def regen_sibling_case(ctx, seed, prop):
+    """The statement that regenerates the manifest writes other files too (a configure step: build.ninja AND config.h), as a
+    write-if-changed generator (generator = 1, restat = 1).  Its input changes in a way that leaves the manifest byte for byte
+    what it was but changes the sibling: ninja runs the step, finds the manifest untouched, carries on in the same process - and
+    has to bring what depends on the sibling up to date in that same run, so that the next run finds nothing to do."""
+    rng = random.Random(seed)
+    t = Tree()
+    rep = {"seed": seed}
+    try:
+        nsib = rng.randint(1, 2)
+        sibs = ["config%d.h" % k for k in range(nsib)]
+        ncons = rng.randint(1, 3)
+        L = ["rule configure",
+             "  command = cp configure.in %s && { cmp -s build.ninja.tmpl build.ninja || cp build.ninja.tmpl build.ninja; } && echo configure >> ran.log" % " && cp configure.in ".join(sibs),
+             "  generator = 1", "  restat = 1",
+             "rule cc", "  command = cat $in > $out && echo $out >> ran.log",
+             "build build.ninja %s%s: configure configure.in | build.ninja.tmpl" % (" ".join(sibs[:1]), (" | " + " ".join(sibs[1:])) if sibs[1:] else "")]
+        outs, explicit = [], []
+        for k in range(ncons):
+            src = "app%d.c" % k
+            with open(t.path(src), "w") as f:
+                f.write("// app %d\n" % k)
+            kind = rng.choice((" ", " | ", " || "))
+            L.append("build app%d.o: cc %s%s%s" % (k, src, kind, rng.choice(sibs)))
+            if kind != " || ":
+                outs.append("app%d.o" % k)
+            if kind == " ":
+                explicit.append("app%d.o" % k)         # ($in names it: the new configuration ends up in the output)
+        L.append("build prog: cc " + " ".join("app%d.o" % k for k in range(ncons)))
+        text = "\n".join(L) + "\n"
+        for name in ("build.ninja", "build.ninja.tmpl"):
+            with open(t.path(name), "w") as f:
+                f.write(text)
+        t.write("configure.in", "// configuration 0\n")
+        rep["manifest"] = text
+        what = "regenerating statement with sibling outputs, scenario %d" % seed
+        rc, so, se = t.run(["-j3"])
+        rc_, so_, _ = t.run(["-j3"])
+        if rc != 0 or rc_ != 0 or b"no work to do" not in so_:
+            ctx.inconclusive += 1
+            ctx.count("e2e_regen_sibling_setup_failed")
+            return
+        for rnd in range(rng.randint(1, 2)):
+            t.write("configure.in", "// configuration %d\n" % (rnd + 1))
+            if rng.random() < 0.4 and outs:
+                t.touch("app0.c")
+            open(t.path("ran.log"), "w").close()
+            tg = rng.choice(([], ["prog"], outs[:1]))
+            rc, so, se = t.run(["-j%d" % rng.choice((1, 3))] + tg)
+            ctx.evaluations += 1
+            ran1 = open(t.path("ran.log")).read().split()
+            rc2, so2, se2 = t.run(["-j3"] + tg)
+            ran2 = open(t.path("ran.log")).read().split()[len(ran1):]
+            ctx.count("e2e_regen_sibling_rounds")
+            ctx.nontrivial(("regen-sibling", seed, rnd))
+            txt = (so + se + so2 + se2).decode("latin-1")
+            sig = util.san_signature(txt)
+            if sig:
+                ctx.violation(prop + "/e2e-sanitizer/" + sig, "%s: %s" % (what, txt[-1200:]), rep)
+                return
+            if rc != 0:
+                ctx.violation(prop + "/e2e-regen-sibling/build-failed", "%s: %s" % (what, txt[-400:]), rep)
+                return
+            if rc2 != 0 or b"no work to do" not in so2 or ran2:
+                ctx.violation(prop + "/e2e-regen-sibling/not-converged", "%s: after configure.in changed, 'ninja %s' ran %s and exited 0; the next run ran %s (%s)" %
+                              (what, " ".join(tg), ran1, ran2, so2.decode("latin-1")[-200:]), rep)
+                return
+            # and the tree is what a from-scratch evaluation gives: every consumer of a sibling (not order-only) has its new content
+            cfg = t.read("configure.in")
+            for o in explicit:
+                if tg and o not in tg and tg != ["prog"]:
+                    continue
+                got = t.read(o) or b""
+                if not got.endswith(cfg):
+                    ctx.violation(prop + "/e2e-regen-sibling/stale", "%s: %s does not end with the new configuration after a successful build (ran %s)" %
+                                  (what, o, ran1), rep)
+                    return
+    finally:
+        t.close()
+
+
+def regen_sibling_scenarios(ctx, prop, n):
+    rng = random.Random(ctx.seed * 137 + 91 + int(prop[1:]))
+    seeds = [rng.randint(1, 10 ** 9) for _ in range(n)]
+    from .checks.c07 import safe
+    parallel(lambda sd: safe(ctx, regen_sibling_case, ctx, sd, prop), seeds)
+
+
 # ------------------------------------------------------------------------------------------ C16: response files on the real disk
 def c16_rsp_case(ctx, seed, prop="C16"):
     """Response files through RealDiskInterface and real processes: a file may already be at the rspfile path (kept after a
